@@ -384,6 +384,8 @@ pub fn scoping_programs() -> Vec<String> {
         "float s13(float x) { float y = x * 2.0f; for (int i = 0; i < 2; ++i) { float y = y + 1.0f; x += y; } return x + y; }\n",
         // an array passed by value and written by the callee: the caller's array is unchanged
         "void fill(int a[2], int v) { a[0] = v; a[1] += v; }\nint s14(int x) { int v[2] = { x, 2 }; fill(v, 5); return v[0] * 100 + v[1]; }\n",
+        // a function template with out / inout parameters (the Metal exporter adds a wrapper per instantiation)
+        "template<typename T> void setv(out T v, T w) { v = w; }\ntemplate<typename T> T bump(inout T v, T w) { v += w; return v; }\nint s15(int x) { int a[2]; setv(a[0], x); setv(a[1], 7); int r = bump(a[1], 2); return a[0] * 100 + a[1] * 10 + r; }\n",
     ];
     scoping.iter().map(|t| t.to_string()).collect()
 }
